@@ -319,7 +319,9 @@ def report_problem(run: Run, mode, name, files, flags, problem, confirm=True):
                 return
         run.report("%s|hang" % mode, case, "no result within the limit: %s" % name)
     else:
-        run.report("%s|%s" % (mode, kind), case, "%s: %s" % (kind, detail[:1500]))
+        # a wrong answer to the benign follow-up program is identified by the input that preceded it (a signature
+        # without the input would hide every other way of breaking the daemon's later answers)
+        run.report("%s|%s" % (mode, kind), case, "%s: %s" % (kind, detail[:1500]), instance=chash(files) if kind.startswith("followup") else None)
 
 
 def replay(run: Run, case: dict, origin: str | None = None) -> bool:
